@@ -17,7 +17,55 @@ TRUST = [
 PROPS = {}
 
 
+RULE_GLOSS = {
+    "A1": "no protocol future is created and dropped / polled once and abandoned; async channel ops are not written in sync code",
+    "A2": "no short-circuiting concurrent driver between a user-callback body and its entry point",
+    "B1": "a StreamOpts builder method keeps the fields it does not set and stores the argument it is given",
+    "B2": "the caller's stream order reaches the set-up; the fixed order of option-less entry points is Forward",
+    "B3": "the has_path guard tests the inserted edge's own endpoints, so no user edge is overwritten",
+    "C18.loops": "build() has no recursion, only collection-bounded loops and progress-guarded worklists, polynomial graph-library calls, no per-function list concatenation",
+    "C18.ord": "Rank's ordering operators are the derived ones", "D1": "the scan list is all ids stably sorted by rank",
+    "D1r": "Rank's ordering operators are the derived ones", "D2": "inner scan over list[position..] of the same sorted list, outer from the end, complete",
+    "D3": "no nondeterministic source in build()", "D4": "FnGraph == compares counts, endpoints, weights and functions pairwise, monotonically, attribute by attribute",
+    "D4e": "Edge == is the derived comparison", "E": "edge-adding builder methods are exactly update_edge with the right constant kind, batch forms insert per element and return the first error",
+    "F": "failure path: one error send, done-send only after the result is examined, release before done, drain after join",
+    "G": "GraphInfo: nodes/edges copied in order, serde derives and tables agree with no hand-written hook, Topo-only iteration, == monotone and attribute-wise",
+    "I": "interruptibility wiring: the caller's state and include flag reach the tracking function and interruptible_with unchanged",
+    "I2": "Interrupted(x) maps to (x, true), NoInterrupt(x) to (Some(x), false)", "ID": "returned FnIds are the NodeIndex values add_node assigned, in order",
+    "IM": "interrupt mapping table", "K": "rank calculation: zero init, root seeds, candidate = ranks[parent]+1 under a strict guard (or max), re-queue on raise, complete walks",
+    "K7": "Rank's ordering operators are the derived ones", "L1": "limit flows unchanged into for_each_concurrent over the READY stream",
+    "L2": "fold steps are sequential and return only after the user future's Ready arm", "L3": "limit influences nothing but that argument",
+    "L4": "no shared lock/permit is taken ahead of a user future in a per-function body", "L5": "no write re-acquisition of an async lock while a guard of it is alive in the same future",
+    "L6": "every invocation of the caller's function is under the one limited, interruption-gated for_each_concurrent",
+    "N": "no state of a run is written into the graph: no interior mutability, unsafe, statics, field writes or &mut borrows outside build()",
+    "N6": "no RNG, clock, thread, environment or hash-order dependence", "N7": "no blocking call (block_on, blocking_*, sleep, park)",
+    "O": "StreamOutcome: processed ids pushed at dequeue, stored unchanged, complement in node order, state from the countdown",
+    "O3b": "the countdown is decremented exactly once per handed-out item on every path", "O4": "control wrappers map Finished/no-break to Continue",
+    "O5": "every outcome comes from StreamOutcome::new", "O6": "the user's function is called for every dequeued id",
+    "P1": "panic-site inventory of build()", "P2": "no unwrap/expect on the holder of a protocol sender",
+    "Q": "sequential APIs: Topo over the right structure, ids index self.graph unchanged, callback for every item, first error returned, iter_insertion over the node storage",
+    "Q6": "FnGraph::clone copies field by field", "R1": "the conflict predicate compares exactly read x write, write x read, write x write of the two endpoints, existentially, as a disjunction",
+    "R2": "only identity / has_path / seen-flag guards stand between pair enumeration and insertion; no per-element early exit",
+    "R3": "augmentation runs on every path, before counts and structure copies, on the same graph; ranks before it", "R4": "both structure copies get every node and edge, unconditionally",
+    "R5": "access tables of R/W agree with their meaning", "R6": "every unordered pair is enumerated once", "R7": "all-pairs comparison, scan on every path",
+    "S1": "counts/structure pairing chain from build() to the set-up's selection", "S2": "sole ready-sends: preload of zero-count ids, release at count==0 after its decrement",
+    "S3": "sole count writes: -=1 per child of every received completion", "S4": "done-send after the user future completed, on every path",
+    "S5": "dequeued id = looked-up id = id sent on DONE", "S6": "channel capacities are >= 1 and >= node_count", "S6b": "id-indexed bit sets are sized by node_count",
+    "S7": "released senders are the protocol's own, unwrapped", "T1": "every exit kind (EMPTY, FINISHED, INTERRUPTED, FAILED) releases the sender that ends the peer",
+    "T2": "queuer and scheduler are joined", "T3": "a Pending return follows a Pending poll with the current waker", "T4": "every item of the interruptible ready stream reaches the scheduler",
+    "T5": "no release of a protocol sender under a condition that is none of the exits", "T6": "countdowns step by exactly one",
+    "U1": "stream end-of-stream bookkeeping", "U3": "a poll function never makes up Poll::Pending", "W1": "the only edge build() adds to the user's graph is update_edge(.., Edge::Data)",
+    "W2": "no read x read or same-node comparison", "W3": "release guarded only by the count test and sender presence", "W4": "the limit reaching the driver is the caller's (None stays unbounded)",
+}
+
+
 def prop(pid, rules, cfgs_quick, explanation, technique, not_decided, cfgs_thorough=(), assumptions=None, level="other"):
+    seen_ = []
+    for r_ in rules:
+        if r_[0] not in seen_:
+            seen_.append(r_[0])
+    explanation = explanation + " Rules registered for this property: " + "; ".join(
+        "%s (%s)" % (n_, RULE_GLOSS.get(n_, "see DESIGN.md 11.2")) for n_ in seen_) + "."
     PROPS[pid] = {
         "rules": rules, "cfgs_quick": list(cfgs_quick), "cfgs_thorough": list(cfgs_thorough),
         "explanation": explanation, "technique": technique, "not_decided": not_decided,
